@@ -737,6 +737,44 @@ class C19(Check):
         return r
 
 
+def _c19_batch_extra(self, tier):
+    """S3: the same kinds of messages on the real fork / spawn backends (task classes in __main__);
+    a dependency chain fixes which task finishes last, so there is no timing dependence."""
+    import json
+    import subprocess
+    import sys
+    from . import REPO_DIR, VERIF_DIR
+    vs = []
+    samples = []
+    n = 0
+    env = dict(os.environ)
+    env['PYTHONPATH'] = REPO_DIR
+    for backend in ('fork', 'spawn'):
+        for rep in range(1 if tier == 'quick' else 3):
+            try:
+                p = subprocess.run([sys.executable, os.path.join(VERIF_DIR, 'simlab', 'reallog.py'), backend], capture_output=True,
+                                   text=True, timeout=180, env=env)
+            except subprocess.TimeoutExpired:
+                vs.append(O.V('C19', 'real-probe-timeout', f'real {backend} run did not finish in 180 s', backend=backend))
+                continue
+            line = [x for x in p.stdout.splitlines() if x.startswith('LOGPROBE ')]
+            if not line:
+                vs.append(O.V('C19', 'real-probe-failed', f'real {backend} run failed: {p.stderr[-300:]}', backend=backend))
+                continue
+            n += 1
+            counts = json.loads(line[0][9:])['counts']
+            samples.append({'real_backend': backend, 'delivered_counts': counts})
+            lost = sorted(t for t, c in counts.items() if c == 0)
+            dup = sorted(t for t, c in counts.items() if c > 1)
+            if lost:
+                vs.append(O.V('C19', 'real-lost', f'real {backend} backend: messages {lost} were not delivered before run_tasks returned',
+                              backend=backend, last_finisher=any(t[3] == '3' for t in lost)))
+            if dup:
+                vs.append(O.V('C19', 'real-duplicated', f'real {backend} backend: messages {dup} were delivered more than once', backend=backend))
+    return vs, {'real_log_runs': n, 'real_log_samples': samples[:2]}
+
+
+C19.batch_extra = _c19_batch_extra
 CHECKS['C19'] = C19()
 
 
